@@ -469,20 +469,56 @@ def geom_case(draw):
     g["cells"] = [draw(cell(n)) for _ in range(draw(small))]
     g["cell"] = draw(cell(n))
     g["box"] = [draw(st.one_of(fval, st.floats(-1., 7.))) for _ in range(4)]
-    g["csz"] = draw(st.sampled_from([1., 1., 0.5, 1e-300, 1e300]))
+    g["csz"] = draw(st.sampled_from([1., 1., 0.5, 0.05, 0.1, 1. / 3, 0.125,
+                                     1e-300, 1e300]))
+    g["xll"] = draw(st.sampled_from([0., 0., -0.25, 0.3, 1e4]))
+    # points on the cell-edge lattice (k * cellsize) and their neighbours
+    nr, nc = g["shape"]
+    for _ in range(draw(st.integers(0, 4))):
+        i, j = draw(st.integers(-1, nc + 1)), draw(st.integers(-1, nr + 1))
+        x, y = g["xll"] + i * g["csz"], j * g["csz"]
+        k = draw(st.integers(0, 2))
+        if k == 1:
+            x = float(np.nextafter(x, -np.inf))
+        elif k == 2:
+            y = float(np.nextafter(y, -np.inf))
+        g["pts"].append([x, y])
     return g
 
 
 def geogrid(c, dtype=np.float64):
     nr, nc = c["shape"]
-    g = Grid("g", nc, nr, cellsize=c["csz"], dtype=dtype)
+    g = Grid("g", nc, nr, cellsize=c["csz"], dtype=dtype,
+             xllcorner=c.get("xll", 0.))
     g.data = np.array(c["fd"]).reshape(nr, nc)
     return g
 
 
+def edge_points(c):
+    """The drawn points plus points on / next to the right and top border of
+    the extent in the bottom and top rows (where a cell number one past the
+    grid would come from)."""
+    nr, nc = c["shape"]
+    csz, xll = c["csz"], c.get("xll", 0.)
+    pts = [list(p) for p in c["pts"]]
+    if not (np.isfinite(csz) and 1e-6 < csz < 1e6):
+        return M(pts, 2)
+    for x0 in (xll + nc * csz, xll + csz * nc - 0.0, (nc * csz) + xll):
+        for x in (x0, float(np.nextafter(x0, -np.inf)),
+                  float(np.nextafter(x0, np.inf))):
+            for y in (0.5 * csz, (nr - 0.5) * csz, 0.0,
+                      float(np.nextafter(nr * csz, -np.inf))):
+                pts.append([x, y])
+    for y0 in (nr * csz,):
+        for y in (y0, float(np.nextafter(y0, -np.inf))):
+            for x in (xll + 0.5 * csz, xll + (nc - 0.5) * csz):
+                pts.append([x, y])
+    return M(pts, 2)
+
+
 @entry("Grid.coord2cell", geom_case())
 def _(c):
-    geogrid(c).coord2cell(M(c["pts"], 2))
+    geogrid(c).coord2cell(edge_points(c))
 
 
 @entry("Grid.cell2coord+cell2rowcol", geom_case())
@@ -499,7 +535,7 @@ def _(c):
 
 @entry("Grid.slice", geom_case())
 def _(c):
-    geogrid(c).slice(M(c["pts"], 2))
+    geogrid(c).slice(edge_points(c))
 
 
 @entry("Grid.clip", geom_case())
